@@ -384,6 +384,8 @@ def confirm(v, P):
             x, s0 = X // 10, 0        # the scale only shifts the result; the model's value is arbitrary
         else:
             x, s0 = mdl['x'], mdl['s0']
+            if abs(s0) > 1000:
+                s0 = 0          # the base scale only shifts the result; never materialise 10^(2^60) in the exact oracle
         line = 'binop\tDiv\tBigDecimal\tBigDecimal\t%s\t%s' % (H.dec_str(x, s0), H.dec_str(den, 0))
         out = H.replay_lines([line])[0]
         if out.startswith('PANIC'):
